@@ -187,6 +187,12 @@ Theorem C13_noop_headers : forall r cc st hs body tmo sched h,
 Proof. exact noop_headers_included. Qed.
 Print Assumptions C13_noop_headers.
 
+(* whatever return_error_details / return_error_code says in the backend's extra_config, a no-op
+   backend keeps the pass-everything status handler (so the theorems above apply to every status) *)
+Theorem C13_noop_ignores_error_flags : forall f, noop_backend_status_handler f = HNoOp.
+Proof. exact noop_ignores_error_flags. Qed.
+Print Assumptions C13_noop_ignores_error_flags.
+
 Theorem C13_noop_oracle_sound : forall st hs body o,
   spec_noop_b st hs body o = true <-> Spec_noop st hs body o.
 Proof. exact spec_noop_iff. Qed.
